@@ -1,8 +1,8 @@
 package chain
 
 import (
-	"math/big"
 	sdkmath "cosmossdk.io/math"
+	"math/big"
 	"testing"
 
 	cctptypes "github.com/circlefin/noble-cctp/x/cctp/types"
